@@ -301,6 +301,60 @@ func walkLockRegions(c *Ctx, r *Rec, rule string, n *types.Named, hook regionHoo
 					return true
 				})
 			}
+			// a count taken in one critical section bounds an index or a slice in another: between
+			// the two the collection may have changed (check-then-act across two lock regions)
+			if bad == "" {
+				stale := map[types.Object]string{}
+				ast.Inspect(fd.Body, func(x ast.Node) bool {
+					lhs, rhs, ok := multiDef(x)
+					if !ok || len(lhs) != 1 {
+						return true
+					}
+					if rx, mname, call, ok := methodCall(ast.Unparen(rhs)); ok && isObj(info, rx, recv) && locking[mname] && len(call.Args) == 0 {
+						if bt, ok := info.TypeOf(call).Underlying().(*types.Basic); ok && bt.Info()&types.IsInteger != 0 {
+							inRegion := false
+							for _, reg := range regions {
+								if containsNode(reg, call) {
+									inRegion = true
+								}
+							}
+							if o := identObj(info, lhs[0]); o != nil && !inRegion {
+								stale[o] = mname
+							}
+						}
+					}
+					return true
+				})
+				if len(stale) > 0 {
+					for _, reg := range regions {
+						ast.Inspect(reg, func(x ast.Node) bool {
+							var idx []ast.Expr
+							switch e := x.(type) {
+							case *ast.IndexExpr:
+								idx = []ast.Expr{e.Index}
+							case *ast.SliceExpr:
+								idx = []ast.Expr{e.Low, e.High, e.Max}
+							default:
+								return true
+							}
+							for _, ie := range idx {
+								if ie == nil {
+									continue
+								}
+								ast.Inspect(ie, func(y ast.Node) bool {
+									if id, ok := y.(*ast.Ident); ok && bad == "" {
+										if m, ok := stale[info.Uses[id]]; ok {
+											bad = fmt.Sprintf("%s is read with %s() in a critical section of its own and then bounds %s at %s inside another one: between the two the collection can change, so the bound does not fit what is sliced (a value too few, or a slice bounds panic while the mutex is held)", id.Name, m, exprStr(x.(ast.Expr)), c.pos(x.Pos()))
+										}
+									}
+									return true
+								})
+							}
+							return true
+						})
+					}
+				}
+			}
 			r.check(bad == "", rule, c.fdName(fd)+"/regions", c.pos(fd.Pos()), "inside the lock regions no locking method of the receiver, or of an operand that may be the receiver, is called", bad)
 		}
 	}
@@ -373,4 +427,53 @@ func checkNoSendUnderPlainLock(c *Ctx, r *Rec, rule string, qr *queueRoles) {
 		r.check(bad == "", rule, c.fdName(fd)+"/sends", c.pos(fd.Pos()), "no send on the closable channel inside a lock region that a panic would leave locked", bad)
 	})
 	_ = n
+}
+
+// checkChannelReplacedOnlyByReset: the token channel is what parked producers and consumers wait
+// on and what CloseQueue closes.  The only operation that may install a new one is the reset
+// (RemoveAll), called by the user.  Any other public method that reaches an assignment of the
+// channel field - by calling RemoveAll on itself, say, to "release the resources" of a drained
+// queue - silently reopens a closed queue or strands whoever waits on the old channel.
+func checkChannelReplacedOnlyByReset(c *Ctx, r *Rec, rule string, qr *queueRoles) {
+	if qr == nil || qr.q == nil || qr.chanF == nil {
+		return
+	}
+	ms := c.methodsOf(qr.q)
+	cg := c.sameTypeCallGraph(qr.q)
+	assigns := map[string]fieldWrite{}
+	for _, w := range c.fieldWrites()[qr.chanF.Origin()] {
+		if w.In == nil || !strings.HasPrefix(w.How, "assigned") {
+			continue
+		}
+		for name, fd := range ms {
+			if fd == w.In {
+				assigns[name] = w
+			}
+		}
+	}
+	for _, name := range sortedKeys(ms) {
+		if !ast.IsExported(name) || name == "RemoveAll" || ms[name].Body == nil {
+			continue
+		}
+		reach := map[string]bool{name: true}
+		path := map[string]string{name: name}
+		for work := []string{name}; len(work) > 0; {
+			cur := work[0]
+			work = work[1:]
+			for _, callee := range sortedKeys(cg[cur]) {
+				if !reach[callee] {
+					reach[callee] = true
+					path[callee] = path[cur] + " -> " + callee
+					work = append(work, callee)
+				}
+			}
+		}
+		bad := ""
+		for _, m := range sortedKeys(reach) {
+			if w, ok := assigns[m]; ok && bad == "" {
+				bad = fmt.Sprintf("%s reaches the assignment of the channel field %s at %s (%s): a method other than the user's own RemoveAll installs a new channel - a queue that was closed is open again without anybody having asked, and whoever waits on the old channel is never served", name, qr.chanF.Name(), c.pos(w.Pos), path[m])
+			}
+		}
+		r.check(bad == "", rule, c.fdName(ms[name])+"/channel", c.pos(ms[name].Pos()), "does not reach an assignment of the channel field", bad)
+	}
 }
